@@ -225,6 +225,33 @@ func buildC03Corpus() *c03Corpus {
 		c.add("v6", "", relay6(r, dhcpv6.MessageTypeRelayForward, nil, vendorClass6(1271, s)).ToBytes())
 		c.add("v6", "", relay6(r, dhcpv6.MessageTypeRelayForward, m, vendorOpts6(9, gen6(1, s))).ToBytes())
 	}
+	// every enterprise number anybody has a case for (and the small integers) x the bare
+	// shapes: a vendor-specific option with no sub-option at all, with one empty one,
+	// alone or beside a vendor class of the same / another enterprise, at message and at
+	// relay level (seeded change C03-18: a fall-back for a BARE Cisco option 17 asserting
+	// the type of a vendor class that is not there)
+	for _, en := range []uint32{0, 1, 2, 3, 4, 5, 6, 7, 8, 9, 10, 11, 35, 311, 674, 1271, 1916, 2011, 2636, 3561, 4491, 6527, 8072, 12356, 25506, 30065, 33049, 40808, 0xffffffff} {
+		for shape := 0; shape < 5; shape++ {
+			var opts []dhcpv6.Option
+			switch shape {
+			case 0:
+				opts = []dhcpv6.Option{vendorOpts6(en)}
+			case 1:
+				opts = []dhcpv6.Option{vendorOpts6(en, gen6(1, ""))}
+			case 2:
+				opts = []dhcpv6.Option{vendorOpts6(en), vendorClass6(en)}
+			case 3:
+				opts = []dhcpv6.Option{vendorOpts6(en), vendorClass6(en^1, "x;y;z;w")}
+			case 4:
+				opts = []dhcpv6.Option{vendorClass6(en), vendorOpts6(en, gen6(1, "a;b;c;d"))}
+			}
+			m := msg6(dhcpv6.MessageTypeSolicit, r, opts...)
+			c.add("v6", "", m.ToBytes())
+			if shape < 2 {
+				c.add("v6", "", relay6(r, dhcpv6.MessageTypeRelayForward, msg6(dhcpv6.MessageTypeSolicit, r), opts...).ToBytes())
+			}
+		}
+	}
 	c.add("v6", "", msg6(dhcpv6.MessageTypeSolicit, r, vendorOpts6(33049, gen6(1, "MSN2100"), gen6(3, "MT1234"), gen6(4, "mac"))).ToBytes())
 	c.add("v6", "", msg6(dhcpv6.MessageTypeSolicit, r, vendorOpts6(33049, gen6(3, "MT1234"))).ToBytes())
 	c.add("v6", "", relay6(r, dhcpv6.MessageTypeRelayForward, nil, vendorOpts6(33049)).ToBytes())
